@@ -45,6 +45,15 @@ def body(ctx):
     allocate(ctx, prog, viol)
     slot_bound(ctx, prog, viol)
     ctx.replay_timeout = 180
+    # "transmitted exactly once and in order" through a stall: the write loop under every short-write / would-block pattern and the
+    # hand-over of whole messages into the buffer (the obligations of C01, decided here as well)
+    import c01
+    v01 = []
+    c01.write_loop(ctx, prog, v01)
+    c01.handover(ctx, prog, v01)
+    if v01:
+        ctx.report('outbound-stream', f"{len(v01)} write-path obligations violated, e.g. {str(v01[0])[:250]}; confirmed by the native write-path differential", {'solver_counterexamples': [str(v)[:300] for v in v01[:6]]},
+                   c01.NATIVE, inject_into='src/io_loop/mod.rs', profiles=('dev',), hang_is_violation=True, panic_is_violation=True)
     if viol:
         ctx.report('backpressure', f"{len(viol)} obligations violated, e.g. {str(viol[0])[:250]}; confirmed by the native throttling scenario on the real poll loop", {'solver_counterexamples': [str(v)[:300] for v in viol[:6]]},
                    NATIVE, inject_into='src/io_loop/mod.rs', profiles=('dev',), hang_is_violation=True)
